@@ -224,7 +224,9 @@ def crash_run(run, sc, dest_existed, point, new_content_ref, hit):
         else:
             good = (new_content_ref is not None and final == new_content_ref)
             if not good and sc.verify and sc.expected_fn is None:
-                good = sc.verify(env.dest) and new_content_ref is not None and len(final) == len(new_content_ref)
+                # a signature made at another moment differs in content and, when the RSA value happens to start with a zero
+                # byte (1 run in 256), by a few bytes in armoured length
+                good = sc.verify(env.dest) and new_content_ref is not None and abs(len(final) - len(new_content_ref)) <= 16
             if not good:
                 run.violation(dict(key, state="dest-torn"), f"{label}: killed at {point} after {boundary} output calls: destination is neither old nor complete new content ({len(final)} bytes)", rep)
         if not sc.same and read(env.inp) != env.orig:
@@ -324,7 +326,7 @@ def run(t):
                        "boundary) actually hit, learned from strace's own log)")
     run.assumptions += ["strace reports system calls faithfully and in completion order",
                         "a crash between system calls leaves exactly the file-system state after the last completed call (no power-loss/fsync semantics)",
-                        "for real-binary scenarios whose output is not deterministic, 'complete new content' = relic verify accepts and the size equals the un-faulted run's"]
+                        "for real-binary scenarios whose output is not deterministic, 'complete new content' = relic verify accepts and the size is within 16 bytes of the un-faulted run's (an RSA signature value is one byte shorter in 1 run of 256)"]
     return run.finish()
 
 
